@@ -49,11 +49,119 @@ func (r RemoveIntersections) processSchema(v *Visitor, schema *ast.Schema) (*ast
 		return nil, foundErr
 	}
 
+	// struct fields aren't the only ones referring to the objects about to be
+	// removed: arrays, maps, disjunctions, ... and the entrypoint can too.
+	retargeter := Visitor{
+		OnStruct: r.retargetStruct,
+		OnRef:    r.retargetRef,
+	}
+	schema.Objects.Iterate(func(key string, value ast.Object) {
+		obj, err := retargeter.VisitObject(schema, value)
+		if err != nil {
+			foundErr = err
+			return
+		}
+		schema.Objects.Set(key, obj)
+	})
+
+	if foundErr != nil {
+		return nil, foundErr
+	}
+
+	if array, found := r.arraysToFix[schema.EntryPoint]; found && array.SelfRef.ReferredPkg == schema.Package {
+		// the entrypoint was an alias to an array: the array takes over.
+		schema.EntryPoint = array.Name
+		schema.EntryPointType = array.SelfRef.AsType()
+	} else {
+		entrypointType, err := retargeter.VisitType(schema, schema.EntryPointType)
+		if err != nil {
+			return nil, err
+		}
+		schema.EntryPointType = entrypointType
+		if replacement, found := r.replacementFor(schema.Package, schema.EntryPoint); found {
+			schema.EntryPoint = replacement.Name
+		}
+	}
+
 	for toRemove := range r.objectsToRemove {
 		schema.Objects.Remove(toRemove)
 	}
 
 	return schema, nil
+}
+
+// replacementFor returns the object taking over from an object that is being
+// removed, if any.
+func (r RemoveIntersections) replacementFor(pkg string, name string) (ast.Object, bool) {
+	replacement, found := r.objectsToRemove[name]
+	if !found || replacement.SelfRef.ReferredPkg != pkg || replacement.Name == name {
+		return ast.Object{}, false
+	}
+
+	return replacement, true
+}
+
+func (r RemoveIntersections) retargetStruct(visitor *Visitor, schema *ast.Schema, def ast.Type) (ast.Type, error) {
+	var err error
+
+	for i, field := range def.Struct.Fields {
+		def.Struct.Fields[i], err = visitor.VisitStructField(schema, field)
+		if err != nil {
+			return ast.Type{}, err
+		}
+	}
+
+	// disjunctions kept as hints refer to objects too
+	for _, hint := range []string{ast.HintDisjunctionOfScalars, ast.HintDiscriminatedDisjunctionOfRefs} {
+		disjunction, ok := def.Hints[hint].(ast.DisjunctionType)
+		if !ok {
+			continue
+		}
+
+		disjunction = disjunction.DeepCopy()
+		for i, branch := range disjunction.Branches {
+			disjunction.Branches[i], err = visitor.VisitType(schema, branch)
+			if err != nil {
+				return ast.Type{}, err
+			}
+		}
+		for discriminator, typeName := range disjunction.DiscriminatorMapping {
+			if replacement, found := r.replacementFor(schema.Package, typeName); found {
+				disjunction.DiscriminatorMapping[discriminator] = replacement.Name
+			}
+		}
+
+		def.Hints[hint] = disjunction
+	}
+
+	return def, nil
+}
+
+func (r RemoveIntersections) retargetRef(_ *Visitor, _ *ast.Schema, def ast.Type) (ast.Type, error) {
+	ref := def.AsRef()
+
+	if array, found := r.arraysToFix[ref.ReferredType]; found && array.SelfRef.ReferredPkg == ref.ReferredPkg {
+		newDef := ast.NewArray(array.Type.AsArray().ValueType.DeepCopy())
+		newDef.Nullable = def.Nullable
+
+		return newDef, nil
+	}
+
+	// follow chains of replacements, without looping on them
+	visited := make(map[string]struct{})
+	for {
+		replacement, found := r.replacementFor(ref.ReferredPkg, ref.ReferredType)
+		if _, alreadyVisited := visited[ref.ReferredType]; !found || alreadyVisited {
+			break
+		}
+
+		visited[ref.ReferredType] = struct{}{}
+		ref = replacement.SelfRef
+	}
+
+	def.Ref = &ast.RefType{ReferredPkg: ref.ReferredPkg, ReferredType: ref.ReferredType}
+
+	return def, nil
 }
 
 func (r RemoveIntersections) processObject(_ *Visitor, schema *ast.Schema, object ast.Object) (ast.Object, error) {
